@@ -40,15 +40,8 @@ Definition subgradient (phi phi' : Q -> Q) : Prop := forall x y, phi' x * (y - x
 Ltac lift_at L x := let H := fresh "HL" in pose proof (L x) as H;
   match type of H with ?t =x= _ => destruct t; cbn in H; try tauto end.
 
-Lemma cq_gen_spec g gq a f o : lifts g gq ->
-  gen_consistent_quantile g (XFin f) (XFin o) (XFin a) =x= XFin (qcq gq a f o).
-Proof. intros L. unfold gen_consistent_quantile, qcq, Qltb. lift_at L f. lift_at L o.
- gk; rewrite ?HL, ?HL0; try reflexivity; lra. Qed.
-
-Lemma ce_gen_spec phi phip pq ppq a f o : lifts phi pq -> lifts phip ppq ->
-  gen_consistent_expectile phi phip (XFin f) (XFin o) (XFin a) =x= XFin (qce pq ppq a f o).
-Proof. intros L L'. unfold gen_consistent_expectile, qce, Qltb. lift_at L f. lift_at L o. lift_at L' f.
- gk; rewrite ?HL, ?HL0, ?HL1; try reflexivity; lra. Qed.
+(* rational functions respect equality of rationals (every function one can write down does) *)
+Definition respects (g : Q -> Q) : Prop := forall x y, x == y -> g x == g y.
 
 Ltac gkk := repeat (progress (qcmp; cbn -[Qle_bool Qeq_bool Qmult Qplus Qminus Qopp Qdiv Qinv Qcompare Qabs])).
 (* collect `p u == p w` for all pairs of arguments of p occurring in the goal that are provably equal *)
@@ -60,17 +53,39 @@ Ltac pq_compat C :=
        tryif constr_eq u w then fail else
        (lazymatch goal with _ : p u == p w |- _ => fail | _ => idtac end;
         assert (p u == p w) by (apply C; lra)) end end.
+(* lift every application `p (XFin z)` of a lifted function occurring in the goal, whatever form the argument has
+   (the kernels may pass the data on as given or converted to floating point, `1.0 * fcst`) *)
+Ltac lift_all := repeat match goal with L : lifts ?p _ |- context [?p (XFin ?z)] => lift_at L z end.
+Ltac use_lifts pq ppq :=
+  repeat match goal with H : _ == pq _ |- _ => rewrite H; clear H | H : _ == ppq _ |- _ => rewrite H; clear H end.
 
-Definition respects (g : Q -> Q) : Prop := forall x y, x == y -> g x == g y.
-
-Lemma ch_gen_spec phi phip pq ppq v f o : lifts phi pq -> lifts phip ppq -> 0 <= v -> respects pq ->
-  gen_consistent_huber phi phip (XFin f) (XFin o) (XFin v) =x= XFin (qch pq ppq v f o).
-Proof. intros L L' Hv C. unfold respects in C. unfold gen_consistent_huber, qch, qclip, Qltb. lift_at L o. lift_at L' f.
+Lemma cq_gen_spec g gq a f o : lifts g gq -> respects gq ->
+  gen_consistent_quantile g (XFin f) (XFin o) (XFin a) =x= XFin (qcq gq a f o).
+Proof. intros L C. unfold respects in C. unfold gen_consistent_quantile, qcq, Qltb.
  xunf. xunf. cbn -[Qle_bool Qeq_bool Qmult Qplus Qminus Qopp Qdiv Qinv Qcompare Qabs].
- gkk; try lra;
- try match goal with L : lifts ?p _ |- context [?p (XFin ?z)] => lift_at L z end;
- cbn -[Qmult Qplus Qminus Qopp Qdiv Qinv Qabs]; rewrite ?HL, ?HL0, ?HL1; try reflexivity;
- pq_compat C; nra.
+ lift_all. cbn -[Qle_bool Qeq_bool Qmult Qplus Qminus Qopp Qdiv Qinv Qcompare Qabs].
+ gkk; cbn -[Qmult Qplus Qminus Qopp Qdiv Qinv Qabs]; try lra; use_lifts gq gq; pq_compat C; nra. Qed.
+
+Lemma ce_gen_spec phi phip pq ppq a f o : lifts phi pq -> lifts phip ppq -> respects pq -> respects ppq ->
+  gen_consistent_expectile phi phip (XFin f) (XFin o) (XFin a) =x= XFin (qce pq ppq a f o).
+Proof. intros L L' C C'. unfold respects in C, C'. unfold gen_consistent_expectile, qce, Qltb.
+ xunf. xunf. cbn -[Qle_bool Qeq_bool Qmult Qplus Qminus Qopp Qdiv Qinv Qcompare Qabs].
+ lift_all. cbn -[Qle_bool Qeq_bool Qmult Qplus Qminus Qopp Qdiv Qinv Qcompare Qabs].
+ gkk; cbn -[Qmult Qplus Qminus Qopp Qdiv Qinv Qabs]; try lra; use_lifts pq ppq; pq_compat C; pq_compat C'; nra. Qed.
+
+Lemma ch_gen_spec phi phip pq ppq v f o : lifts phi pq -> lifts phip ppq -> 0 <= v -> respects pq -> respects ppq ->
+  gen_consistent_huber phi phip (XFin f) (XFin o) (XFin v) =x= XFin (qch pq ppq v f o).
+Proof. intros L L' Hv C C'. unfold respects in C, C'.
+ assert (Proper (Qeq ==> Qeq) pq) by (intros x y E; apply C; exact E).
+ assert (Proper (Qeq ==> Qeq) ppq) by (intros x y E; apply C'; exact E).
+ unfold gen_consistent_huber, qch, qclip, Qltb.
+ xunf. xunf. cbn -[Qle_bool Qeq_bool Qmult Qplus Qminus Qopp Qdiv Qinv Qcompare Qabs].
+ gkk; try lra; lift_all;
+ cbn -[Qmult Qplus Qminus Qopp Qdiv Qinv Qabs]; use_lifts pq ppq;
+ repeat rewrite Qmult_1_l in *;
+ try reflexivity;
+ try (assert (E : f - o == - v) by lra; rewrite !E); try (assert (E : f - o == v) by lra; rewrite !E);
+ pq_compat C; pq_compat C'; nra.
 Qed.
 
 (* ---------------- non-negativity and zero at fcst = obs, for every admissible g / phi ---------------- *)
@@ -245,13 +260,16 @@ Lemma tw_rect_gen a b alpha v f o : a <= b -> 0 <= v ->
     =x= XFin (q_tw_expectile_rect a b alpha f o) /\
   xmul (XFin (1 # 2)) (gen_consistent_huber (gen_phi_rect (XFin a) (XFin b)) (gen_phi_prime_rect (XFin a) (XFin b)) (XFin f) (XFin o) (XFin v))
     =x= XFin (q_tw_huber_rect a b v f o).
-Proof. intros Hab Hv. repeat split.
- - apply ce_gen_spec; [apply lifts_phi_rect | apply lifts_phip_rect].
- - apply xmul_fin_eq. apply cq_gen_spec. apply lifts_g_rect.
- - apply cq_gen_spec. apply lifts_g_rect.
- - apply xmul_fin_eq. apply ce_gen_spec; [apply lifts_phi_rect | apply lifts_phip_rect].
- - apply xmul_fin_eq. apply ch_gen_spec; [apply lifts_phi_rect | apply lifts_phip_rect | auto |].
-   exact (subgradient_respects _ _ (qphi_rect_subgradient a b Hab)). Qed.
+Proof. intros Hab Hv.
+ pose proof (nondecreasing_respects _ (qg_rect_nondecreasing a b Hab)) as Rg.
+ pose proof (subgradient_respects _ _ (qphi_rect_subgradient a b Hab)) as Rphi.
+ pose proof (nondecreasing_respects _ (qphip_rect_nondecreasing a b Hab)) as Rphip.
+ repeat split.
+ - apply ce_gen_spec; [apply lifts_phi_rect | apply lifts_phip_rect | exact Rphi | exact Rphip].
+ - apply xmul_fin_eq. apply cq_gen_spec; [apply lifts_g_rect | exact Rg].
+ - apply cq_gen_spec; [apply lifts_g_rect | exact Rg].
+ - apply xmul_fin_eq. apply ce_gen_spec; [apply lifts_phi_rect | apply lifts_phip_rect | exact Rphi | exact Rphip].
+ - apply xmul_fin_eq. apply ch_gen_spec; [apply lifts_phi_rect | apply lifts_phip_rect | auto | exact Rphi | exact Rphip]. Qed.
 
 (* two half-lines sum to the unweighted score *)
 Lemma tw_partition_halflines L b U alpha v f o : 0 <= v -> L <= f -> L <= o -> f <= U -> o <= U -> L <= b -> b <= U ->
